@@ -510,6 +510,80 @@ def run_check(ctx, mod):
     return 1 if ctx.violations else 0
 
 
+# --------------------------------------------------------------------------------------
+# case-based correspondence
+# --------------------------------------------------------------------------------------
+def run_cases(ctx, cases, compare=None, classify=None, limit=10, timeout=900):
+    """cases: list of dicts with "lines" (protocol lines of one case, without the leading RESET)
+    and free-form metadata. Every case runs in a fresh world on both sides. Returns
+    (results, ndis) where results[k] = (model_lines, impl_lines, differs)."""
+    lines, spans = [], []
+    for c in cases:
+        start = len(lines)
+        lines.append("RESET")
+        lines.extend(c["lines"])
+        spans.append((start + 1, len(lines)))
+    m = run_lines(DRIVER_EXE, lines, timeout)
+    i = run_lines(HARNESS_EXE, lines, timeout)
+    results, ndis, reported = [], 0, 0
+    for c, (a, b) in zip(cases, spans):
+        ml, il = m[a:b], i[a:b]
+        if compare:
+            differs = not all(compare(c, x, y) for x, y in zip(ml, il))
+        else:
+            differs = ml != il
+        results.append((ml, il, differs))
+        if differs:
+            fid = classify(c, ml, il) if classify else None
+            if fid:
+                ctx.known(fid[0], fid[1])
+                continue
+            ndis += 1
+            if reported < limit:
+                reported += 1
+                ctx.violation({"lines": c["lines"], "meta": {k: v for k, v in c.items() if k != "lines"}},
+                              ml, il)
+    return results, ndis
+
+
+def replay_case(ctx, path, compare=None):
+    payload = json.load(open(path))
+    case = payload["case"]
+    if "lines" not in case:
+        print("replay file names a broken obligation, not an input:", json.dumps(payload.get("unproved"), indent=1))
+        return 1
+    with Lock():
+        build_driver()
+        build_harness()
+    lines = ["RESET"] + case["lines"]
+    m = run_lines(DRIVER_EXE, lines, 300)
+    i = run_lines(HARNESS_EXE, lines, 300)
+    bad = 0
+    for l, x, y in zip(lines, m, i):
+        same = compare(case, x, y) if compare else x == y
+        print(l[:200], "\n   model:", x[:600], "\n   impl: ", y[:600], "" if same else "   <== differs")
+        bad += 0 if same else 1
+    return 1 if bad else 0
+
+
+def witness_findings(ctx, prop):
+    """run the witness of every open known finding of this property on the implementation:
+    KNOWN-FINDING is printed while the implementation still shows the recorded defect"""
+    out = []
+    for k in known_findings(prop):
+        w = k.get("witness")
+        if not w:
+            continue
+        lines = ["RESET"] + w["lines"]
+        i = run_lines(HARNESS_EXE, lines, 300)
+        got = i[1:]
+        still = any(g == d for g, d in zip(got, w["defect_output"]) if d is not None)
+        out.append({"id": k["id"], "still_present": still, "impl": got})
+        if still:
+            ctx.known(k["id"], k["what"])
+    return out
+
+
 def traceback_str():
     import traceback
     return traceback.format_exc()
